@@ -127,6 +127,7 @@ inductive Stmt where
   | ifs (init : Stmt) (cond : Expr) (thn els : Stmt)
   | ret (e : Expr)                                   -- `tuple …` or `nilE` for a bare return
   | range (k v : String) (e : Expr) (body : Stmt)
+  | rangeM (k v : String) (e : Expr) (body : Stmt)   -- `for k, v := range m` over a map (an association chain), in the chain's order
   | forc (fuel : Nat) (init : Stmt) (cond : Expr) (post body : Stmt)
   | switch (init : Stmt) (tag : Expr) (cases : Stmt) -- cases: chain of `case` ending in `skip`
   | case (vals : Expr) (body rest : Stmt)            -- vals = `nilE` marks `default`
@@ -363,6 +364,16 @@ def exec (ext : Ext) : Stmt → Env → Res
     | .ok ve env' =>
       rangeLoop (fun en i x =>
         exec ext body ((if k = "_" then en else en.set k (.int i)) |> fun en' => if v = "_" then en' else en'.set v x)) 0 ve env'
+    | .panic w => .panic w
+    | .stuck w => .stuck w
+  | .rangeM k v e body, env =>
+    -- Go iterates a map in an unspecified order: a theorem about `rangeM` that holds for every chain holds for every order
+    match eval ext e env with
+    | .ok ve env' =>
+      rangeLoop (fun en _ x =>
+        match x with
+        | .cons kk vv => exec ext body ((en.bind1 k kk).bind1 v vv)
+        | _ => .stuck "range over a map: not an entry") 0 ve env'
     | .panic w => .panic w
     | .stuck w => .stuck w
   | .forc fuel init cond post body, env =>
